@@ -48,15 +48,37 @@ type c13case struct {
 	TimeoutNS int64  `json:"timeout_ns"`
 	SubMS     bool   `json:"sub_ms,omitempty"`
 	Control   bool   `json:"control,omitempty"`
+	// Variant qualifies the transport: "client=<3s|T/2|4T+1s>" builds the HTTP
+	// transport on an http.Client with that Timeout of its own.
+	Variant string `json:"variant,omitempty"`
 }
 
 func (c c13case) T() time.Duration { return time.Duration(c.TimeoutNS) }
 func (c c13case) class() string {
 	s := c.Transport + "/" + c.Op + "/" + c.Pattern
+	if c.Variant != "" {
+		s += "/" + c.Variant
+	}
 	if c.SubMS {
 		s += "/sub-ms"
 	}
 	return s
+}
+
+// clientTimeout is the http.Client's own Timeout (0 = none).
+func (c c13case) clientTimeout() time.Duration {
+	switch c.Variant {
+	case "client=3s":
+		return 3 * time.Second
+	case "client=T/2":
+		if c.T() < 2 {
+			return 1
+		}
+		return c.T() / 2
+	case "client=4T+1s":
+		return 4*c.T() + time.Second
+	}
+	return 0
 }
 func (c c13case) key() string { return fmt.Sprintf("%s/T=%s", c.class(), c.T()) }
 
@@ -94,6 +116,23 @@ func (c c13case) isLate() bool { return strings.HasPrefix(c.Pattern, "late:") }
 
 type combo struct{ tr, op, pat string }
 
+// combinations with a transport variant (quick uses the first c13variantQuick)
+var c13variants = []struct{ tr, op, pat, variant string }{
+	{"http", "request", "never", "client=3s"},
+	{"http", "oneway", "never", "client=3s"},
+	{"http", "request", "late:2T+400ms", "client=3s"},
+	{"http", "oneway", "stallbody", "client=3s"},
+	{"http", "request", "never", "client=T/2"},
+	{"http", "request", "stallbody", "client=3s"},
+	{"http", "oneway", "late:2T+400ms", "client=3s"},
+	{"http", "request", "late:2T", "client=4T+1s"},
+	{"http", "request", "never", "client=4T+1s"},
+	{"http", "oneway", "never", "client=T/2"},
+	{"http", "request", "stallbody", "client=T/2"},
+}
+
+const c13variantQuick = 5
+
 // the stall patterns per transport and operation
 var c13combos = []combo{
 	{"adapter", "request", "silent"},
@@ -113,6 +152,7 @@ var c13combos = []combo{
 	{"adapter", "oneway", "stallconnect:5T"},
 	{"adapter", "oneway", "stallconnect:forever"},
 	{"nats", "request", "stalledconn"},
+	{"nats", "request", "publishrefused"},
 	{"nats", "request", "silent"},
 	{"nats", "request", "late:T+50ms"},
 	{"nats", "request", "late:2T"},
@@ -176,6 +216,15 @@ func c13cases(rng *rand.Rand, thorough bool) (main, sub, controls []c13case) {
 			main = append(main, c13case{Transport: cb.tr, Op: cb.op, Pattern: cb.pat, TimeoutNS: ms(t1)})
 			main = append(main, c13case{Transport: cb.tr, Op: cb.op, Pattern: cb.pat, TimeoutNS: ms(t2)})
 		}
+		for _, cb := range c13variants[:c13variantQuick] {
+			t1 := deal()
+			t2 := deal()
+			for t2 == t1 {
+				t2 = deal()
+			}
+			main = append(main, c13case{Transport: cb.tr, Op: cb.op, Pattern: cb.pat, Variant: cb.variant, TimeoutNS: ms(t1)})
+			main = append(main, c13case{Transport: cb.tr, Op: cb.op, Pattern: cb.pat, Variant: cb.variant, TimeoutNS: ms(t2)})
+		}
 		for _, cb := range []combo{c13subCombos[0], c13subCombos[7], c13subCombos[8]} {
 			sub = append(sub, c13case{Transport: cb.tr, Op: cb.op, Pattern: cb.pat, TimeoutNS: int64(500 * time.Microsecond), SubMS: true})
 		}
@@ -184,6 +233,11 @@ func c13cases(rng *rand.Rand, thorough bool) (main, sub, controls []c13case) {
 		}
 	} else {
 		fixed := []int{1, 2, 5, 10, 20, 50, 100, 250, 500, 1000}
+		for _, cb := range c13variants {
+			for _, t := range []int{1, 5, 20, 50, 100, 250, 500, 1000, 1 + rng.Intn(1500)} {
+				main = append(main, c13case{Transport: cb.tr, Op: cb.op, Pattern: cb.pat, Variant: cb.variant, TimeoutNS: ms(t)})
+			}
+		}
 		for _, cb := range c13combos {
 			seen := map[int]bool{}
 			ts := append([]int(nil), fixed...)
@@ -263,7 +317,7 @@ func runC13(tier string, args []string) int {
 		os.Setenv("VERIF_OUT", ev.ScratchDir()) // a replay never overwrites the committed evidence
 	}
 	run := ev.New("C13", tier, "exploration")
-	run.Rule("case = (transport, timeout T, peer stall pattern, Request|Oneway); adapter over a scripted TTransport (silent, response late by T+50ms / 2T / 2T+400ms, Write blocked for 5T or for good, Flush blocked with and without honouring ctx, underlying Open() stalled for 5T / for good while the call is issued), NATS on an embedded broker (subscriber that never replies, or replies late, or the client-broker TCP connection black-holed by a proxy after a healthy control request), HTTP against httptest (handler answering late, never, or stalling the body); each case attempted 3 times on fresh transports, minimum elapsed compared with T+max(300ms,T); distinct = (transport, op, pattern, T)")
+	run.Rule("case = (transport, timeout T, peer stall pattern, Request|Oneway); adapter over a scripted TTransport (silent, response late by T+50ms / 2T / 2T+400ms, Write blocked for 5T or for good, Flush blocked with and without honouring ctx, underlying Open() stalled for 5T / for good while the call is issued), NATS on an embedded broker (subscriber that never replies, or replies late, or the client-broker TCP connection black-holed by a proxy after a healthy control request), or PublishRequest refused by a 4 KiB max_payload broker followed by a request reusing the FContext), HTTP against httptest (handler answering late, never, or stalling the body; http.Client without and with a Timeout of its own above / below T); each case attempted 3 times on fresh transports, minimum elapsed compared with T+max(300ms,T); distinct = (transport, op, pattern, T)")
 	run.Assume("monotonic clock of the Go runtime; a delay present in all 3 attempts of a case is attributed to the code, not to scheduling")
 	run.Assume("rig.ScriptTransport, the embedded nats-server and net/http/httptest behave as scripted")
 	run.Assume("goroutine ids parsed from runtime.Stack identify the calling goroutine in the full dump")
@@ -419,6 +473,8 @@ func runCase(env *c13env, c c13case, body func() []byte) caseResult {
 		case "nats":
 			if c.Pattern == "stalledconn" {
 				a = attemptNatsStalledConn(env, c, body())
+			} else if c.Pattern == "publishrefused" {
+				a = attemptNatsPublishRefused(env, c, body())
 			} else {
 				a = attemptNats(env, c, body())
 			}
@@ -554,8 +610,8 @@ func judge(run *ev.Run, st *c13stats, c c13case, res *caseResult) {
 
 	// 3. wrong error class although the peer provably had not answered
 	for _, a := range res.attempts {
-		if strings.HasPrefix(c.Pattern, "stallconnect:") {
-			break // transport not open yet: any error class is acceptable, only the time bound is asserted
+		if strings.HasPrefix(c.Pattern, "stallconnect:") || c.Pattern == "publishrefused" {
+			break // transport not open yet / send refused at once: any error class is acceptable, only the time bound is asserted
 		}
 		if a.AnsweredBeforeReturn {
 			run.Add("attempts_response_raced_timeout", 1)
@@ -575,6 +631,54 @@ func judge(run *ev.Run, st *c13stats, c c13case, res *caseResult) {
 			run.Violation("C13:registration-left:"+c.Transport+"/"+c.Op,
 				fmt.Sprintf("%d registration(s) left in the registry of the %s transport after %s returned (%s)", a.RegAfterPoll, c.Transport, c.Op, a.ErrClass), witness(nil))
 			break
+		}
+	}
+
+	// 4b. after a refused publish the same FContext must be usable again
+	if c.Pattern == "publishrefused" {
+		minRe := time.Duration(1<<62 - 1)
+		for _, a := range res.attempts {
+			r := a.Reuse
+			if r == nil {
+				continue
+			}
+			st.mu.Lock()
+			if r.Returned {
+				st.overshootMS[c.class()+"/reuse"] = append(st.overshootMS[c.class()+"/reuse"], float64(time.Duration(r.ElapsedNS)-c.T())/1e6)
+				st.errClasses[c.Transport+"/"+c.Op+" (FContext reused): "+r.ErrClass]++
+				st.regSizes[fmt.Sprint(r.RegAfterPoll)]++
+			}
+			st.mu.Unlock()
+			run.Add("attempts", 1)
+			if !r.Returned {
+				if r.Parked {
+					run.Violation(sig("reuse-never-returns"), fmt.Sprintf("after a refused publish, a request reusing the FContext (timeout %s, silent service) had not returned %s after the timeout", c.T(), c13Watchdog), witness(nil))
+				} else {
+					run.Inconclusive(fmt.Sprintf("%s: reused-FContext call not back after T+%s, goroutine not parked in the transport (state %q)", c.key(), c13Watchdog, r.GoroutineState))
+				}
+				return
+			}
+			if el := time.Duration(r.ElapsedNS); el < minRe {
+				minRe = el
+			}
+		}
+		if minRe < time.Duration(1<<62-1) && minRe > c.bound() {
+			run.Violation(sig("late-return-reused-fctx"), fmt.Sprintf("after a refused publish, a request reusing the FContext (timeout %s, silent service) returned after %s at best (bound %s)", c.T(), minRe.Round(time.Microsecond), c.bound()), witness(nil))
+		}
+		for _, a := range res.attempts {
+			r := a.Reuse
+			if r == nil {
+				continue
+			}
+			if !r.TimedOut {
+				run.Violation(sig("fctx-unusable-after-refused-publish"),
+					fmt.Sprintf("after %s Request failed at publish (%s), a request reusing that FContext against a silent service returned %s (%s) instead of TIMED_OUT", c.Transport, a.ErrText, r.ErrClass, r.ErrText), witness(nil))
+				break
+			}
+			if r.RegAfterPoll > 0 {
+				run.Violation("C13:registration-left:"+c.Transport+"/"+c.Op, fmt.Sprintf("%d registration(s) left after the reused-FContext request returned", r.RegAfterPoll), witness(nil))
+				break
+			}
 		}
 	}
 
